@@ -1,3 +1,4 @@
 import Proofs.Basic
 import Proofs.Codec
 import Proofs.Pool
+import Proofs.CloseLock
